@@ -448,6 +448,39 @@ fn family_extreme(t: &mut Tape) -> String {
                 _ => format!("TYPE\ns : {}{}{}{}{};\nEND_TYPE\nPROGRAM p\nVAR CONSTANT\nw : s;\nv : s{};\nEND_VAR\nEND_PROGRAM\n", kw, o, b, c, init, init),
             }
         }
+        12 if t.ratio(1, 3) => {
+            // string literals made of '$' escapes of every kind: the named ones, two hex digits in a
+            // single-byte string, four in a double-byte string - every boundary of the code space (NUL,
+            // the last ASCII / Latin-1 character, both ends of the surrogate range, U+FFFE / U+FFFF) and
+            // random ones - and escapes that are cut short
+            let wide = t.flag();
+            let q = if wide { "\"" } else { "'" };
+            let n = 1 + t.below(4);
+            let mut body = String::new();
+            for _ in 0..n {
+                match t.below(6) {
+                    0 => body.push_str(*t.pick(&["$$", "$'", "$\"", "$L", "$N", "$P", "$R", "$T", "$l", "$n", "$p", "$r", "$t"])),
+                    1 | 2 => {
+                        let code: u32 = match t.below(3) {
+                            0 => *t.pick(&[0x0000u32, 0x0001, 0x007F, 0x0080, 0x00FF, 0x0100, 0xD7FF, 0xD800, 0xDBFF, 0xDC00, 0xDFFF, 0xE000, 0xFFFD, 0xFFFE, 0xFFFF]),
+                            _ => t.u16() as u32,
+                        };
+                        let hex = if wide { format!("{:04X}", code) } else { format!("{:02X}", code & 0xFF) };
+                        body.push('$');
+                        body.push_str(&if t.flag() { hex.to_ascii_lowercase() } else { hex });
+                    }
+                    3 => body.push_str(*t.pick(&["$", "$G", "$1", "$D8", "$D80", "$$$", "$ ", "$\n"])),
+                    4 => body.push_str(*t.pick(&["a", "Z9", " ", "\u{e9}", "\u{20ac}", "\u{1f600}"])),
+                    _ => body.push_str("$D800$DC00"),
+                }
+            }
+            let kw = if wide { "WSTRING" } else { "STRING" };
+            match t.below(3) {
+                0 => format!("PROGRAM p\nVAR\nw : {} := {}{}{};\nEND_VAR\nEND_PROGRAM\n", kw, q, body, q),
+                1 => format!("PROGRAM p\nVAR\nw : {};\nEND_VAR\nw := {}{}{};\nEND_PROGRAM\n", kw, q, body, q),
+                _ => format!("TYPE\nlabel : {}[8] := {}{}{};\nEND_TYPE\n", kw, q, body, q),
+            }
+        }
         9 if t.flag() => {
             // numbers someone may count through: CASE selectors (values, wide subranges), array bounds
             // of a variable, a FOR range, a repetition count
